@@ -35,6 +35,9 @@ import json
 import os
 import vkit
 
+# the machine is shared: keep every TLC JVM of this family small (TLC's default heap is 25% of the RAM)
+os.environ.setdefault("JAVA_TOOL_OPTIONS", "-Xmx3g")
+
 TRACE_CFG = """SPECIFICATION TraceSpec
 CONSTANTS
   NS = %(ns)d
@@ -157,7 +160,7 @@ def _tlc_trace(ck, events, ns, prop, bug, loose=False, printat=0, inv="", tag="v
     import uuid
     tp = os.path.join(ck.tmp, "tr_%s_ns%d_%s_%s.ndjson" % (tag, ns, threading.get_ident(), uuid.uuid4().hex[:8]))
     vkit.write_ndjson(tp, events)
-    r = ck.tlc_validate("TraceEngine", name, tp, files={name: cfg}, timeout=3000)
+    r = ck.tlc_validate("TraceEngine", name, tp, files={name: cfg}, timeout=3000, heap="3g")
     m = re.search(r'<<"DEPTH", (\d+)>>', r.out)
     r.depth_reached = int(m.group(1)) if m else 0
     m = re.search(r'<<"KF", "(.*)">>', r.out)
